@@ -16,7 +16,7 @@ import (
 
 // TokenAddrs are the execution-layer token addresses the drivers use, in denom order (model ids 1..4).
 var TokenAddrs = []common.Address{
-	{}, // "btc"
+	{},                          // "btc"
 	goattypes.GoatTokenContract, // "goat"
 	common.HexToAddress("0x00000000000000000000000000000000000000aa"), // "tkn:...aa"
 	common.HexToAddress("0x00000000000000000000000000000000000000bb"), // "tkn:...bb"
